@@ -139,3 +139,18 @@ Theorem c14_no_panic :
     forall st b p, process_block subsidy extra_ok E st b <> Panic p.
 Proof. exact process_block_no_panic. Qed.
 Print Assumptions c14_no_panic.
+
+(* ---- The reward constants of the model are the code's (translator tools/gofrag) ----------------
+   consensus_BlockReward, consensus_InitBTMSupply: read from consensus/general.go on every run.
+   (validatorReward / pledgeRate are float64 code: outside the translator's fragment.) *)
+From Coq Require Import ZArith.
+From VerifGen Require Import FragConsensus.
+From C14 Require Import Tie.
+
+Theorem c14_tie_BlockReward : Z.of_N BlockReward = consensus_BlockReward.
+Proof. exact tie_BlockReward. Qed.
+Print Assumptions c14_tie_BlockReward.
+
+Theorem c14_tie_InitBTMSupply : Z.of_N InitBTMSupply = consensus_InitBTMSupply.
+Proof. exact tie_InitBTMSupply. Qed.
+Print Assumptions c14_tie_InitBTMSupply.
